@@ -390,6 +390,20 @@ def _loops(b):
     return _loopcache[id(b)]
 
 
+def n_defs(b, l):
+    n = 0
+    for blk in b.blocks:
+        if blk["cleanup"]:
+            continue
+        for s_ in blk["s"]:
+            if s_["k"] == "assign" and not s_["p"]["p"] and s_["p"]["l"] == l:
+                n += 1
+        t_ = blk["t"]
+        if t_["k"] == "call" and not t_["dest"]["p"] and t_["dest"]["l"] == l:
+            n += 1
+    return n
+
+
 def reach_formula(b, S, block, stack=(), depth=0):
     if block in stack or depth > 40:
         return True
@@ -401,15 +415,24 @@ def reach_formula(b, S, block, stack=(), depth=0):
         if t.get("dty") == "bool" and d is not None and not d["p"]:
             src = resolve_copy(b, d["l"])
             cd = const_bool_defs(b, src)
+            vals = [v for v, bb in t["ts"] if bb == taken]
+            is_other = taken == t["o"] and not vals
+            truth = (not is_other and vals == ["1"]) or (is_other and [v for v, _ in t["ts"]] == ["0"])
             if cd is not None:
-                vals = [v for v, bb in t["ts"] if bb == taken]
-                is_other = taken == t["o"] and not vals
-                truth = (not is_other and vals == ["1"]) or (is_other and [v for v, _ in t["ts"]] == ["0"])
                 alts = [reach_formula(b, S, db, stack + (block, sb), depth + 1) for db in (cd[0] if truth else cd[1])]
                 # the flag was set where one of these blocks ran; the switch itself is reached under RC(sb)
                 lab = ["or"] + alts if len(alts) != 1 else alts[0]
                 terms.append(lab if lab is not True else True)
                 continue
+            if n_defs(b, src) > 1 and depth < 12:
+                # a flag that holds a constant on one path and the result of a test on another
+                # (`let e = if let Some(x) = o { x.is_empty() } else { true }`): its value as a formula
+                vf = value_formula(b, S, src, depth + 1)
+                if vf is not None:
+                    lab = vf if truth else neg(vf)
+                    rc = reach_formula(b, S, sb, stack + (block,), depth + 1)
+                    terms.append(_and(rc, lab))
+                    continue
         g = switch_desc(b, S, sb, taken)
         lab = _atom(g)
         # inside a loop the condition is relative to the current iteration: what made earlier iterations continue is history
@@ -503,3 +526,101 @@ def implied_values(f, limit=300000):
             for k in out:
                 out[k].add(env[k])
     return out
+
+
+# ---------------------------------------------------------------------------------------------
+# value of a bool local as a formula (for predicate functions and flags that are set on several paths)
+
+def neg(f):
+    if f is True:
+        return False
+    if f is False:
+        return True
+    if f[0] == "and":
+        return ["or"] + [neg(x) for x in f[1:]]
+    if f[0] == "or":
+        return ["and"] + [neg(x) for x in f[1:]]
+    if f[0] == "e":
+        return ["e", f[1], f[2], not f[3]]
+    return ["b", f[1], not f[2]]
+
+
+def _and(a, c):
+    if a is True:
+        return c
+    if c is True:
+        return a
+    if a is False or c is False:
+        return False
+    return ["and", a, c]
+
+
+def value_formula(b, S, l, depth=0, stack=()):
+    """formula that is true exactly when the bool local l holds true (over the branch predicates and the tests stored in it);
+    None if some definition cannot be described"""
+    if depth > 8 or l in stack:
+        return None
+    if 1 <= l <= b.argc:
+        return ["b", "arg%d" % l, True]
+    alts = []
+    for bi, blk in enumerate(b.blocks):
+        if blk["cleanup"]:
+            continue
+        for s in blk["s"]:
+            if s["k"] != "assign" or s["p"]["p"] or s["p"]["l"] != l:
+                continue
+            rv = s["rv"]
+            val = None
+            if rv["r"] == "use" and rv["a"].get("k") in ("true", "false"):
+                val = rv["a"]["k"] == "true"
+            elif rv["r"] == "use":
+                pl = mir.op_place(rv["a"])
+                if pl is not None and not pl["p"]:
+                    val = value_formula(b, S, pl["l"], depth + 1, stack + (l,))
+                elif pl is not None:
+                    val = _atom(op_desc(b, S, rv["a"]))
+            elif rv["r"] == "un" and rv["op"] == "Not":
+                pl = mir.op_place(rv["a"])
+                if pl is not None and not pl["p"]:
+                    v = value_formula(b, S, pl["l"], depth + 1, stack + (l,))
+                    val = neg(v) if v is not None else None
+            elif rv["r"] == "bin" and rv["op"] in CMP:
+                val = _atom("%s %s %s" % (op_desc(b, S, rv["a"]), CMP[rv["op"]], op_desc(b, S, rv["b"])))
+            elif rv["r"] == "bin" and rv["op"] in ("BitAnd", "BitOr"):
+                pa, pb = mir.op_place(rv["a"]), mir.op_place(rv["b"])
+                if pa is not None and pb is not None and not pa["p"] and not pb["p"]:
+                    va = value_formula(b, S, pa["l"], depth + 1, stack + (l,))
+                    vb = value_formula(b, S, pb["l"], depth + 1, stack + (l,))
+                    if va is not None and vb is not None:
+                        val = ["and" if rv["op"] == "BitAnd" else "or", va, vb]
+            if val is None:
+                return None
+            if val is False:
+                continue
+            alts.append(_and(reach_formula(b, S, bi), val))
+        t = blk["t"]
+        if t["k"] == "call" and not t["dest"]["p"] and t["dest"]["l"] == l:
+            if not t.get("res"):
+                return None
+            dsc, pos = canon_test(mir.strip_generics(t["res"].lstrip("?")), ", ".join(op_desc(b, S, a) for a in t["args"]))
+            a = _atom(dsc)
+            if not pos:
+                a = neg(a)
+            alts.append(_and(reach_formula(b, S, bi), a))
+    if not alts:
+        return False
+    return alts[0] if len(alts) == 1 else ["or"] + alts
+
+
+def atoms_of(f, acc=None):
+    acc = set() if acc is None else acc
+    if f is True or f is False or f is None:
+        return acc
+    if f[0] in ("and", "or"):
+        for x in f[1:]:
+            atoms_of(x, acc)
+    elif f[0] == "e":
+        acc.add("%s %s %s" % (f[1], "in" if f[3] else "not in", "|".join(f[2])))
+    else:
+        acc.add(("" if f[2] else "!") + f[1])
+    return acc
